@@ -242,6 +242,9 @@ fn main() {
         .collect();
     names.sort();
 
+    // one Generator value shared by every specification (interleaved calls)
+    let shared = fastxdr::Generator::default();
+
     for n in names {
         let stem = n.trim_end_matches(".x").to_string();
         let raw = std::fs::read(format!("{}/{}", dir, n)).unwrap();
@@ -307,6 +310,21 @@ fn main() {
                     let _ = write!(o, ",\"gen_{}\":{{\"outcome\":\"panic\",{}}}", key, take_panic());
                 }
             }
+        }
+        // the shared Generator, called after it has been used for all earlier specifications
+        {
+            let t4 = text.clone();
+            let sh = &shared;
+            let r = panic::catch_unwind(panic::AssertUnwindSafe(move || sh.generate(&t4).map_err(|e| e.to_string())));
+            let fresh = std::fs::read_to_string(format!("{}/{}.default.rs", dir, stem)).ok();
+            let same = match (&r, &fresh) {
+                (Ok(Ok(a)), Some(b)) => a == b,
+                (Ok(Err(_)), None) => true,
+                (Err(_), None) => true,
+                _ => false,
+            };
+            let _ = LAST_PANIC.lock().unwrap().take();
+            let _ = write!(o, ",\"shared_same\":{}", same);
         }
         o.push('}');
         std::fs::write(format!("{}/{}.json", dir, stem), o).unwrap();
